@@ -2,6 +2,7 @@
    Theorems only (proofs in Acme.C04.Proofs_Xxx); statements: Acme.C04.Invariant (Inv, op_ok, Reach),
    Acme.C04.Spec (KeysUnique, LookupByNameSpec). Layer 1 of the model: networks, buses, nodes,
    interfaces, messages as opaque items, enums and enum values (33 operations). *)
+From stdpp Require Import gmap.
 From Acme.C04 Require Import Spec Proofs_New Proofs_Step Proofs_Cor Proofs_Witness Proofs_Pre.
 
 Theorem inv_init : Inv init.
@@ -67,3 +68,27 @@ Theorem removed_interface_refuted :
   exists ops b nm, all_accepted ops = true /\ stale_node_name (run ops) b nm = true /\ ~ Inv (run ops).
 Proof. exact Proofs_Witness.removed_interface_refuted. Qed.
 Print Assumptions removed_interface_refuted.
+
+(* a rename / an id change / a removal really releases the key: afterwards no child of the container
+   carries it (so, by refused_iff_pre of C06, the next call that needs it is accepted) *)
+Theorem rename_releases_name : forall s, Inv s -> forall m M i new,
+  msgs s !! m = Some M -> m_sender M = Some i -> m_name M <> new ->
+  snd (step s (MsgUpdateName m new)) = Ok ->
+  ~ iface_sends (fst (step s (MsgUpdateName m new))) i (fun M' => m_name M' = m_name M).
+Proof. exact Proofs_Pre.rename_releases_name. Qed.
+Print Assumptions rename_releases_name.
+
+Theorem update_id_releases_static : forall s, Inv s -> forall m M i Ii new,
+  msgs s !! m = Some M -> m_sender M = Some i -> ifaces s !! i = Some Ii -> m_hasStatic M = true ->
+  snd (step s (MsgUpdateID m new)) = Ok ->
+  let s' := fst (step s (MsgUpdateID m new)) in
+  ~ iface_sends s' i (has_static (m_static M)) /\
+  forall b, i_parent Ii = Some b -> ~ bus_carries s' b (has_static (m_static M)).
+Proof. exact Proofs_Pre.update_id_releases_static. Qed.
+Print Assumptions update_id_releases_static.
+
+Theorem removal_releases_name : forall s, Inv s -> forall i Ii m M,
+  ifaces s !! i = Some Ii -> m ∈ i_sent Ii -> msgs s !! m = Some M ->
+  ~ iface_sends (fst (step s (IfRemoveSent i m))) i (fun M' => m_name M' = m_name M).
+Proof. exact Proofs_Pre.removal_releases_name. Qed.
+Print Assumptions removal_releases_name.
